@@ -29,7 +29,7 @@ pub fn strategy(tier: Tier) -> BoxedStrategy<Scenario> {
         handle: vec![vec![Act::Yield]],
         ..Default::default()
     });
-    let tmo = prop_oneof![2 => Just(None), 3 => (1u16..40).prop_map(Some)];
+    let tmo = prop_oneof![2 => Just(None), 3 => (1u16..40).prop_map(Some), 1 => Just(Some(0u16))];
     let call = prop_oneof![
         8 => (gen::idx(2), tmo.clone()).prop_map(|(to, t)| (0u8, to, t)),
         2 => tmo.clone().prop_map(|t| (1u8, 0, t)),
